@@ -2,7 +2,10 @@
 import vlib
 from props import p2common
 
-PREFIXES = ['c01_', 'c08_success_before_stage']  # 'reported as failed': the answer of the Set against the transaction's end
+PREFIXES = ['c01_', 'c08_success_before_stage',  # 'reported as failed': the answer of the Set against the transaction's end
+            # the value-level theorems (C01_commit_contains_change, C01_all_or_none_values_partial) rest on the commit guard and
+            # the chain invariant: a validated proposal merges exactly on its predecessor, else it takes its merge for done
+            'c02_commit_guard', 'c02_chain_backlink', 'c02_shared_prev', 'c02_links_not_ordered']
 
 
 def run(ctx):
